@@ -130,6 +130,7 @@ package nbs
 //@ extern (*os.File).Sync as verif_x_File_Sync
 //@   modifies nothing
 //@   ghost_set verif_ghost.jDurableRoot = verif_ghost.jDurableRoot || (verif_ghost.jFileRoot && err == nil)
+//@   ghost_set verif_ghost.mTempSynced = (err == nil)
 
 //@ extern (*os.File).WriteAt as verif_x_File_WriteAt
 //@   modifies nothing
@@ -232,3 +233,105 @@ package nbs
 //@     invariant 0 <= idx && idx <= len(buf) && len(buf) <= int(buffSize)
 //@     invariant 0 <= bufferPrefix && 0 <= n && len(buf) == bufferPrefix + n
 //@     invariant !atEOF ==> len(buf) == int(buffSize)
+
+// ---- manifest replacement protocol (C02, C05)
+
+// the |validate| parameter of updateWithChecker
+//@ extern funcvalue:validate as verif_x_validate
+//@   modifies nothing
+//@   ghost_set verif_ghost.mValidated = (err == nil)
+//@   ghost_set verif_ghost.mCheckedLock = upstream.lock
+//@   ghost_set verif_ghost.mCheckedNew = contents.lock
+
+//@ extern github.com/dolthub/dolt/go/libraries/utils/file.Rename as verif_x_file_Rename
+//@   requires verif_ghost.mTempSynced && verif_ghost.mValidated
+//@   modifies nothing
+//@   ghost_set verif_ghost.mRenamed = (err == nil)
+
+//@ extern github.com/dolthub/dolt/go/libraries/utils/file.SyncDirectoryHandle as verif_x_file_SyncDirectoryHandle
+//@   requires verif_ghost.mRenamed
+//@   modifies nothing
+//@   ghost_set verif_ghost.mDirSynced = (err == nil)
+
+//@ func updateWithChecker
+//@   property C02 C05
+//@   requires !verif_ghost.mTempSynced && !verif_ghost.mValidated && !verif_ghost.mRenamed && !verif_ghost.mDirSynced
+//@   ensures  verif_ghost.mRenamed ==> verif_ghost.mCheckedLock == lastLock && verif_ghost.mCheckedNew == newContents.lock
+//@   ensures  err == nil && verif_ghost.mRenamed ==> verif_ghost.mDirSynced && mc.lock == newContents.lock && mc.root == newContents.root
+//@   ensures  err == nil && !verif_ghost.mRenamed ==> mc.lock != lastLock
+//@   ensures  verif_ghost.mLockHeld == old(verif_ghost.mLockHeld)
+//@   also_modifies verif_ghost.mTempSynced, verif_ghost.mValidated, verif_ghost.mCheckedLock, verif_ghost.mCheckedNew, verif_ghost.mRenamed, verif_ghost.mDirSynced
+
+//@ func (*journalWriter).commitRootHash
+//@   property C02 C03
+//@   requires !verif_ghost.jBufRoot && !verif_ghost.jFileRoot && !verif_ghost.jDurableRoot
+//@   ensures  result == nil ==> verif_ghost.jDurableRoot && verif_ghost.jRoot == root
+//@   ensures  result == nil ==> wr.currentRoot == root
+//@   also_modifies verif_ghost.jBufRoot, verif_ghost.jFileRoot, verif_ghost.jDurableRoot, verif_ghost.jRoot
+//@   ghost_set verif_ghost.jCommitCalled = true
+
+// flushToBackingManifest: the table-file set reaches the backing (file) manifest; must happen before the
+// root record that refers to those tables becomes durable.
+//@ func (*ChunkJournal).flushToBackingManifest
+//@   property C02
+//@   trusted ordering marker only (the body is a ParseIfExists + Update on the backing manifest)
+//@   requires !verif_ghost.jCommitCalled
+//@   modifies nothing
+//@   ghost_set verif_ghost.jBackingCalled = true
+
+// ChunkJournal.Update: compare-and-swap on the in-memory contents' lock; the new root is durable in the
+// journal before the in-memory contents change; an error leaves the contents untouched.
+//@ func (*ChunkJournal).Update
+//@   property C02
+//@   requires !verif_ghost.jBufRoot && !verif_ghost.jFileRoot && !verif_ghost.jDurableRoot && !verif_ghost.jCommitCalled
+//@   requires j.wr != nil
+//@   ensures  result1 != nil ==> j.contents.lock == old(j.contents.lock) && j.contents.root == old(j.contents.root)
+//@   ensures  result1 == nil && old(j.contents.lock) != lastLock ==> !verif_ghost.jCommitCalled && result0.lock == old(j.contents.lock) && j.contents.root == old(j.contents.root)
+//@   ensures  result1 == nil && old(j.contents.lock) == lastLock ==> verif_ghost.jDurableRoot && verif_ghost.jRoot == next.root && j.contents.root == next.root && j.contents.lock == next.lock
+
+// the manifest interface's conditional update, as seen by its callers
+//@ extern (github.com/dolthub/dolt/go/store/nbs.manifestUpdater).Update as verif_x_manifest_Update
+//@   ghost_set verif_ghost.uCalled = true
+//@   ghost_set verif_ghost.uLastLock = lastLock
+//@   ghost_set verif_ghost.uNewRoot = newContents.root
+//@   ghost_set verif_ghost.uNewLock = newContents.lock
+
+// NomsBlockStore.updateManifest: the store-level compare-and-swap. A stale |last| is rejected before anything is
+// written; the manifest update is conditional on the lock of the upstream contents the store last saw and carries
+// |current| as the new root; the cached upstream changes to the new contents only when the manifest accepted them.
+//@ func (*NomsBlockStore).updateManifest
+//@   property C02
+//@   requires !verif_ghost.uCalled
+//@   ensures  old(nbs.upstream.root) != last ==> result != nil && !verif_ghost.uCalled
+//@   ensures  old(nbs.upstream.root) != last ==> nbs.upstream.root == old(nbs.upstream.root) && nbs.upstream.lock == old(nbs.upstream.lock)
+//@   ensures  verif_ghost.uCalled ==> verif_ghost.uNewRoot == current
+//@   ensures  result == nil ==> verif_ghost.uCalled && nbs.upstream.root == current && nbs.upstream.lock == verif_ghost.uNewLock
+
+// Frame conditions of helpers called by updateManifest, assumed from reading their bodies (they touch the
+// conjoin bookkeeping, the has-cache and logging only): stated so that updateManifest is checked modularly.
+//@ func (*NomsBlockStore).startConjoinIfRequired
+//@   trusted frame condition assumed from the body (conjoinOp / conjoinOpCond only)
+//@   modifies nbs.conjoinOp
+//@ func (*NomsBlockStore).errorIfDangling
+//@   trusted frame condition assumed from the body (reads nbs.hasCache, calls the checker)
+//@   modifies nothing
+//@ func (*NomsBlockStore).handlePossibleDanglingRefError
+//@   trusted frame condition assumed from the body (logging only)
+//@   modifies nothing
+
+// the inter-process manifest lock (flock): held between a successful LockWithTimeout and Unlock
+//@ extern (*github.com/dolthub/fslock.Lock).LockWithTimeout as verif_x_fslock_LockWithTimeout
+//@   modifies nothing
+//@   ghost_set verif_ghost.mLockHeld = (err == nil)
+//@ extern (*github.com/dolthub/fslock.Lock).Unlock as verif_x_fslock_Unlock
+//@   modifies nothing
+//@   ghost_set verif_ghost.mLockHeld = false
+
+// fileManifest.Update: the whole read-compare-validate-rename sequence runs with the manifest file lock held.
+//@ func (fileManifest).Update
+//@   property C02 C05
+//@   requires !verif_ghost.mTempSynced && !verif_ghost.mValidated && !verif_ghost.mRenamed && !verif_ghost.mDirSynced && !verif_ghost.mLockHeld
+//@   at call updateWithChecker: assert verif_ghost.mLockHeld
+//@   ensures  verif_ghost.mRenamed ==> verif_ghost.mCheckedLock == lastLock
+//@   ensures  err == nil && verif_ghost.mRenamed ==> verif_ghost.mDirSynced && mc.lock == newContents.lock
+//@   ensures  !verif_ghost.mLockHeld
